@@ -23,48 +23,52 @@ def atomsOf : RE → List Nat → List Nat
   | star a, acc => atomsOf a acc
   | rep a _ _, acc => atomsOf a acc
 
-/-- smallest byte of every signature class over the atoms `A` -/
-def mkReps (A : List Nat) : List Nat :=
-  (List.range 256).foldl (fun reps b => if reps.any (fun c => sameSig A b c) then reps else reps ++ [b]) []
+/-- the byte classes of a state: bytes with the same membership in every class bitmap of the state.
+    Returns (representative, class bitmap) pairs. -/
+def classesOf (r : RE) : List (Nat × Nat) := Id.run do
+  let A := atomsOf r []
+  let mut sigs : Array (List Bool × Nat × Nat) := #[]   -- signature, representative, bitmap
+  for b in [0:256] do
+    let sig := A.map (fun bm => bm.testBit b)
+    match sigs.findIdx? (fun x => x.1 == sig) with
+    | some i => sigs := sigs.modify i (fun (s, c, bm) => (s, c, bm ||| (1 <<< b)))
+    | none => sigs := sigs.push (sig, b, 1 <<< b)
+  return sigs.toList.map (fun (_, c, bm) => (c, bm))
 
 structure Cert where
-  atoms : List Nat
-  reps : List Nat
   states : Array RE
-  tbl : Array (Array Nat)
+  /-- per state: (representative, class bitmap, target state) -/
+  tbl : Array (Array (Nat × Nat × Nat))
 
 inductive Outcome where
   | witness (w : Word)
   | cert (c : Cert)
   | overflow (n : Nat)
 
-/-- breadth-first exploration of the derivative automaton of `r` over the class representatives.
+/-- breadth-first exploration of the derivative automaton of `r`, per-state alphabet compression.
     Returns a shortest word of `Lang r`, or the closed automaton when the language is empty. -/
 partial def explore (r : RE) (limit : Nat := 100000) : Outcome := Id.run do
-  let A := (atomsOf r []).reverse
-  let reps := mkReps A
   if nullable r then return .witness []
   let mut states : Array RE := #[r]
   let mut index : Std.HashMap RE Nat := Std.HashMap.emptyWithCapacity 1024 |>.insert r 0
   let mut parent : Array (Nat × Nat) := #[(0, 0)]
-  let mut tbl : Array (Array Nat) := #[]
+  let mut tbl : Array (Array (Nat × Nat × Nat)) := #[]
   let mut i := 0
   while i < states.size do
     if states.size > limit then return .overflow states.size
     let s := states[i]!
-    let mut row : Array Nat := #[]
-    for c in reps do
+    let mut row : Array (Nat × Nat × Nat) := #[]
+    for (c, bm) in classesOf s do
       let d := derivN c s
       match index[d]? with
-      | some j => row := row.push j
+      | some j => row := row.push (c, bm, j)
       | none =>
         let j := states.size
         states := states.push d
         index := index.insert d j
         parent := parent.push (i, c)
-        row := row.push j
+        row := row.push (c, bm, j)
         if nullable d then
-          -- reconstruct the path
           let mut w : Word := []
           let mut k := j
           while k != 0 do
@@ -74,7 +78,7 @@ partial def explore (r : RE) (limit : Nat := 100000) : Outcome := Id.run do
           return .witness w
     tbl := tbl.push row
     i := i + 1
-  return .cert { atoms := A, reps := reps, states := states, tbl := tbl }
+  return .cert { states := states, tbl := tbl }
 
 /-! ### printing as Lean syntax -/
 
@@ -148,10 +152,9 @@ def Cert.toLean (c : Cert) : String := Id.run do
     | .rep a m n => s!"r {a} {m} {n}"
   let nodes := ";".intercalate (pool.keys.toList.map node)
   let rts := " ".intercalate (roots.toList.map toString)
-  let rows := ";".intercalate (c.tbl.toList.map (fun r => " ".intercalate (r.toList.map toString)))
+  let rows := ";".intercalate (c.tbl.toList.map (fun r =>
+    " ".intercalate (r.toList.map (fun (c, bm, j) => s!"{c} {bm} {j}"))))
   let mut out := ""
-  out := out ++ s!"def atoms : List Nat := [{", ".intercalate (c.atoms.map hexNat)}]\n"
-  out := out ++ s!"def reps : List Nat := {c.reps}\n"
   out := out ++ s!"def states : List (List RE) := re_dag% \"{nodes}|{rts}\"\n"
   out := out ++ s!"def tbl : List (List (List Nat)) := nat_rows% \"{rows}\"\n"
   return out
